@@ -41,6 +41,7 @@ RULE += (" Also: deletion by replacing the instance's __dict__.")
 RULE += (' Also: a subclass overriding the cached property and awaiting super().p.')
 RULE += (' Also: getters failing with a BaseException that is no Exception.')
 RULE += (' Also: host classes with customised attribute reads (__getattribute__ handing out stand-ins).')
+RULE += (' Also: hosts inheriting from a base that declares __slots__ = () (abc.ABC, Generic) while having a __dict__ of their own.')
 ASSUMPTIONS = ["awaiting a handle taken while a value was cached returns that value (unspecified after del; accepted)",
                "the getter's own suspensions are the only scheduling points besides lock waits"]
 EXHAUSTIVE_SUBSPACES = 'all operation sequences of length <= 5 (thorough: 6) over 7 operations; DFS-complete schedule sets for the scenarios counted in scenarios_explored_exhaustively'
@@ -72,7 +73,7 @@ def cases(tier, seed, shard, nshards):
         yield {"kind": "seq", "ops": [rng.choice(SEQ_OPS) for _ in range(rng.randint(6, 15))], "lock": rng.random() < 0.5,
                # (a host class whose attribute READS are customised: the property keeps reading its own state from
                # the instance's __dict__, not through the class's attribute access)
-               "traced_reads": rng.random() < 0.2,
+               "traced_reads": rng.random() < 0.2, "slotted_base": rng.random() < 0.25,
                "exc": rng.choice(PLANNED_NAMES), "falsy": rng.choice([None, None, "none", "zero", "false", "empty", "opaque", "awaitable"])}
     n = max(1, N_SCEN[tier] // nshards)
     for i in range(n):
@@ -89,13 +90,20 @@ def cases(tier, seed, shard, nshards):
                "cancel_task": rng.randrange(nt) if rng.random() < 0.4 else None,
                "lock_susp": rng.choice([[0, 0], [0, 0], [1, 0], [0, 1]]),
                "runs": DFS_LIMIT[tier] if mode == "dfs" else RANDOM_RUNS[tier], "seed": rng.randrange(1 << 30),
-               "exc": rng.choice(PLANNED_NAMES), "global_lock": rng.random() < 0.3, "traced_reads": rng.random() < 0.15}
+               "exc": rng.choice(PLANNED_NAMES), "global_lock": rng.random() < 0.3, "traced_reads": rng.random() < 0.15,
+               "slotted_base": rng.random() < 0.2}
 
 
 from ..tools import Opaque, AwaitablePayload  # noqa: E402
 
 AWAITABLE_VALUE = AwaitablePayload("value")  # a property value that happens to be awaitable: payload, never awaited
 OPAQUE = Opaque("value")  # a property value that refuses to be inspected (no truth value, equality, hash)
+
+
+class _SlottedBase:
+    """A base class that declares ``__slots__ = ()`` (like ``abc.ABC``, ``typing.Generic`` and protocols do): a subclass
+    that declares no slots of its own has an ordinary ``__dict__`` - and is an ordinary host for a cached property."""
+    __slots__ = ()
 
 
 class _Traced:
@@ -154,7 +162,7 @@ def run_seq(case, stats):
         # as functools.cached_property does, and never goes through the class's attribute assignment
         raise AttributeError(f"cannot assign to field {name!r}")
 
-    K = type("K", (), {"p": prop, "__init__": lambda self, tag: self.__dict__.__setitem__("tag", tag),
+    K = type("K", (_SlottedBase,) if case.get("slotted_base") else (), {"p": prop, "__init__": lambda self, tag: self.__dict__.__setitem__("tag", tag),
                        "__bool__": lambda self: False, "__len__": lambda self: 0, "__setattr__": _frozen,
                        **({"__getattribute__": _traced_reads} if case.get("traced_reads") else {})})
     prop.__set_name__(K, "p")
@@ -343,7 +351,7 @@ def execute(case, choose, cancel_at=None):
     def _frozen(self, name, value):
         raise AttributeError(f"cannot assign to field {name!r}")
 
-    K = type("K", (), {"p": prop, "__bool__": lambda self: False, "__len__": lambda self: 0, "__setattr__": _frozen,
+    K = type("K", (_SlottedBase,) if case.get("slotted_base") else (), {"p": prop, "__bool__": lambda self: False, "__len__": lambda self: 0, "__setattr__": _frozen,
                        **({"__getattribute__": _traced_reads} if case.get("traced_reads") else {})})
     prop.__set_name__(K, "p")
     inst = K()
